@@ -327,6 +327,21 @@ for mi, mat in enumerate(mats):
                         report(f"{name}:{D}", f"Stokes relation {name} violated",
                                dict(predicate=name, dtype=D, alpha_fluid=float(alphas[i]).hex(), material=mat,
                                     lhs=complex(lhs[i]), rhs=complex(rhs[i]), residual=float(r[i])), True)
+        # ---------------- ONE of the two optional angles supplied (the evanescent one, complex, from Snell's law), the other left
+        #                  to the function: the same coefficients as with both supplied, wherever the omitted angle is real
+        if fname == "fluid_solid":
+            a_f, a_l, a_t = three_angles("fluid_solid", alphas.astype(complex), mat)
+            with np.errstate(all="ignore"):
+                full_ = model.fluid_solid(alphas.astype(complex), rho_f, rho_s, v_f, v_l, v_t, a_l, a_t)
+                part_ = model.fluid_solid(alphas, rho_f, rho_s, v_f, v_l, v_t, alpha_l=a_l)
+            real_t = np.abs(v_t / v_f * np.sin(alphas)) < 1 - 1e-6
+            n_eval += int(real_t.sum())
+            for nm_, x_, y_ in zip(("reflection", "transmission_l", "transmission_t"), part_, full_):
+                bad_ = real_t & ~(np.abs(np.asarray(x_) - np.asarray(y_)) <= 1e-12 * np.maximum(1.0, np.abs(np.asarray(y_))))
+                for i in np.nonzero(bad_)[0][:2]:
+                    report(f"partial-angles:fluid_solid:{nm_}", "fluid_solid given alpha_l only (complex, from Snell's law) differs from the call with both angles supplied",
+                           dict(predicate="optional angles", coefficient=nm_, alpha_fluid=float(alphas[i]).hex(), material=mat,
+                                alpha_l_supplied=complex(a_l[i]), got=complex(np.asarray(x_)[i]), expected=complex(np.asarray(y_)[i])), True)
     # ---------------- normal incidence
     zf, zl = rho_f * v_f, rho_s * v_l
     for D in ("R", "C"):
@@ -446,6 +461,28 @@ for mi in range(nhelp_mat):
                                                 unit=unit, force_complex=fc, alpha=float(alphas[i]).hex(), material=mat,
                                                 material_objects="fresh" if mi % 3 == 0 else "updated in place after earlier calls",
                                                 got=complex(got[i]), expected=complex(want[i])), True)
+                            if err is None and len(alphas):
+                                # the angle of incidence as a Python float, a NumPy scalar, a 0-d or a one-element array: the same angle
+                                i0 = int(rng.integers(0, len(alphas)))
+                                a0 = float(alphas[i0])
+                                cont_ = int(rng.integers(0, 4))
+                                kw3 = dict(kw, angles_inc=[a0, np.float64(a0), np.array(a0), np.array([a0])][cont_])
+                                chk.count(angle_container=["float", "np.float64", "0-d array", "shape (1,)"][cont_])
+                                try:
+                                    got3 = (model.transmission_at_interface(material_out=m_oth, **kw3) if helper == "tr"
+                                            else model.reflection_at_interface(material_against=m_oth, **kw3))
+                                    g3 = complex(np.asarray(got3).reshape(-1)[0])
+                                    with np.errstate(all="ignore"):
+                                        ok3 = (abs(g3 - complex(got[i0])) <= 1e-13 * max(1.0, abs(complex(got[i0])))) or (g3 != g3 and complex(got[i0]) != complex(got[i0]))
+                                except Exception as e:      # noqa: BLE001
+                                    ok3, g3 = False, repr(e)
+                                n_eval += 1
+                                if not ok3:
+                                    report(f"container:{combo}:{unit}", "the coefficient for one angle given as a scalar / 0-d / one-element array differs from "
+                                           "the entry of the array call",
+                                           dict(predicate="container independence", helper=helper, kind=kind, mode_inc=m_in, mode_out=m_out, unit=unit,
+                                                force_complex=fc, alpha=a0.hex(), container=["float", "np.float64", "0-d array", "shape (1,)"][cont_],
+                                                material=mat, got_scalar_call=g3, got_array_call=complex(got[i0])), True)
                             if err is None and fc:
                                 # complex angle dtype with force_complex=False is the same request as
                                 # force_complex=True (quantifier: "real and complex angle dtypes")
